@@ -23,3 +23,9 @@ run 661611b C17 replays/regress/C17-D8-int-scratch.json
 run 661611b C09 replays/regress/C09-D8-int-list.json
 run 8d9d7b6 C13 replays/regress/C13-D9-painter-arange.json
 run 023290d C04 replays/regress/C04-D10-refined-optimum-lost.json
+run babdf30 C16 replays/regress/C16-D11-failed-trial-loses-interval.json
+run babdf30 C02 replays/regress/C02-D11-fault-then-continue.json
+run da3511f C16 replays/regress/C16-D12-refinement-failure-escapes.json
+run 71b4939 C03 replays/regress/C03-D13-nonfinite-value-hangs.json
+run 674b2db C19 replays/regress/C19-D14-traversal-cursor.json
+run bb9a76d C17 replays/regress/C17-D15-0d-argument-modified.json
